@@ -16,6 +16,7 @@ RULE = ("random barcodes (1-50 bars; classes: integer/dyadic lengths, equal leng
         "orders of magnitude, floats), 0-3 infinite bars, lists of 1-6 barcodes, all flag combinations (a third of the flags given as numpy.bool_), zero/negative "
         "length bars at random positions; non-trivial = >=3 bars with >=2 distinct lengths; distinct = digest of "
         "(barcode(s), flags)")
+REQUIRED_NOTES = ["large-cases"]
 ASSUMPTIONS = ["oracle: -sum p log p with math.fsum in double precision; equality tolerance 1e-12*(1+log n)",
                "invariance under translation/rescaling is judged on exactly representable transformations "
                "(dyadic data, power-of-two factors) at 1e-12 and on arbitrary ones at 1e-9*(1+log n)",
@@ -64,8 +65,42 @@ def call(ctx, *a, **kw):
     return PE(*a, **kw)
 
 
+def large_case(ctx, k, rng):
+    """barcodes of 10^4 - 10^5 bars (cubical persistence of an image, H0 of a large point cloud), with and without tied lengths"""
+    n = int(rng.choice([10001, 12000, 20000, 50000, 100000]))
+    style = str(rng.choice(["int-grid", "float", "all-equal", "8bit"]))
+    if style == "int-grid":
+        b = rng.integers(0, 50, n).astype(float); l = rng.integers(1, 40, n).astype(float)
+    elif style == "8bit":
+        b = rng.integers(0, 200, n).astype(float); l = rng.integers(1, 56, n).astype(float)
+    elif style == "all-equal":
+        b = rng.random(n); l = np.full(n, 0.5)
+    else:
+        b = rng.normal(0, 3, n); l = rng.random(n) * 2 + 1e-3
+    dgm = np.column_stack([b, b + l])
+    ctx.begin(k, "large/" + style, {"n_bars": n, "style": style, "first_bars": dgm[:5]})
+    ctx.note("large-cases")
+    lengths = (dgm[:, 1] - dgm[:, 0]).tolist()
+    ref = shannon(lengths)
+    tol = 1e-12 * (1 + math.log(n)) * 10
+    try:
+        norm = bool(rng.integers(0, 2))
+        E = float(call(ctx, dgm if style != "8bit" else dgm.astype(np.uint8), normalize=norm)[0])
+        want = ref / math.log(n) if norm else ref
+        ctx.check("value==shannon", abs(E - want) <= tol, got=E, ref=want, n=n, normalize=norm)
+        if norm:
+            ctx.check("normalised in [0,1]", -tol <= E <= 1 + tol, got=E)
+        if style == "all-equal":
+            ctx.check("equal-lengths=>log n", abs(E - (1.0 if norm else math.log(n))) <= tol, got=E, logn=math.log(n))
+        ctx.mark_nontrivial(n, style, float(dgm.sum()))
+    except Exception as e:
+        ctx.exception("value==shannon", e, n=n)
+
+
 def run_case(ctx, k, rng):
     FLAGRNG[0] = np.random.default_rng([k, 16])
+    if k % 499 == 13:
+        return large_case(ctx, k, rng)
     kind = str(rng.choice(["int", "dyadic", "equal", "dominant", "wide", "float"]))
     n = int(rng.choice([1, 2, 3, 4, 5, 8, 13, 30, 50])) if rng.random() < 0.97 else int(rng.choice([127, 128, 129, 256, 257, 1000]))
     dgm = gen_bars(rng, n, kind)
@@ -100,6 +135,17 @@ def run_case(ctx, k, rng):
             ctx.check("integer barcode == float barcode of the same values", abs(Ei - E) <= tol, int_form=Ei, float_form=E)
         except Exception as e:
             ctx.exception("integer barcode == float barcode of the same values", e)
+    if rng.random() < 0.1:
+        PD = np.array(dgm, float).copy()
+        try:
+            first = float(call(ctx, PD)[0])
+            how = forms.update_in_place(rng, PD)
+            E_now = float(call(ctx, PD)[0])
+            lens = (PD[:, 1] - PD[:, 0]).tolist()
+            ctx.check("after an in-place update the value is that of the current contents", abs(E_now - shannon(lens)) <= 1e-12 * (1 + math.log(len(lens))),
+                      got=E_now, ref_on_current_values=shannon(lens), before_update=first, update=how)
+        except Exception as e:
+            ctx.exception("after an in-place update the value is that of the current contents", e)
     if rng.random() < 0.06:
         ia, fa_, da = forms.near_limit_int_diagram(rng, int(rng.integers(1, 9)))
         ctx.set_payload({"dgm": ia, "dtype": da})
